@@ -28,6 +28,7 @@ import (
 	"strings"
 	"time"
 
+	"verifharness/fsck"
 	"verifharness/hist"
 
 	"github.com/ipld/go-storethehash/store"
@@ -445,6 +446,16 @@ func (r *runner) recordListCheck() string {
 	return ""
 }
 
+// fsck runs the independent format reader against the live bucket table.
+func (r *runner) fsck() string {
+	tbl := r.s.Index().VerifBuckets()
+	t := make([]uint64, len(tbl))
+	for i, p := range tbl {
+		t[i] = uint64(p)
+	}
+	return fsck.Check(r.dir, fsck.Config{Bits: r.bits, Imax: r.h.Cfg.Imax, Pmax: r.h.Cfg.Pmax}, t)
+}
+
 func hx(b []byte) *string { s := hex.EncodeToString(b); return &s }
 
 func (r *runner) run() (term string, err error) {
@@ -630,6 +641,7 @@ func (r *runner) run() (term string, err error) {
 			extra["pools_empty"] = len(pendingRecs) == 0
 			if len(pendingRecs) == 0 && e == nil {
 				extra["rl_check"] = r.recordListCheck()
+				extra["fsck"] = r.fsck()
 			}
 		case "reopen", "missize":
 			before := fileSizes(r.dir, "i")
@@ -716,6 +728,7 @@ func (r *runner) run() (term string, err error) {
 			jr.Res = "ROk"
 			r.ops = append(r.ops, fmt.Sprintf("(YX (XO (OReopen %s %v)), XR ROk)", nlist(order), rescan))
 			r.observe()
+			extra["fsck"] = r.fsck()
 		case "rebits":
 			before := fileSizes(r.dir, "i")
 			if e := s.Close(); e != nil {
@@ -743,20 +756,24 @@ func (r *runner) run() (term string, err error) {
 			r.ops = append(r.ops, fmt.Sprintf("(YX (XO (OIndexGC %v)), XR %s)", o.N != 0, jr.Res))
 			r.observe()
 			extra["dir"] = r.dirState()
+			extra["fsck_after_gc"] = r.fsck()
 		case "pgc":
 			_, e := s.Primary().(*mhprimary.MultihashPrimary).GC(context.Background(), o.N)
 			jr.Res = errClass(e)
 			r.ops = append(r.ops, fmt.Sprintf("(YX (XO (OPrimaryGC %d)), XR %s)", o.N, jr.Res))
 			r.observe()
 			extra["dir"] = r.dirState()
+			extra["fsck_after_gc"] = r.fsck()
 		case "pgcb":
 			_, e := s.Primary().(*mhprimary.MultihashPrimary).GC(withBudget(o.B), o.N)
 			jr.Res = errClass(e)
 			extra["dir"] = r.dirState()
+			extra["fsck_after_gc"] = r.fsck()
 		case "igcb":
 			_, _, e := s.Index().VerifGC(withBudget(o.B), o.N != 0)
 			jr.Res = errClass(e)
 			extra["dir"] = r.dirState()
+			extra["fsck_after_gc"] = r.fsck()
 		case "iter":
 			// NewIterator flushes first: for the model this is a Flush with the observed bucket order
 			before := fileSizes(r.dir, "i")
